@@ -348,10 +348,22 @@ class ResultBook:
         self.tp = None  # fingerprint of the mesh the last consumer used
         self.snap = {}  # holder name -> hash of its results when last written
         self.keep = []
+        self._last = {}   # what -> (content fingerprint, epoch)
+
+    def epoch(self, ph, what=("fc", "nac", "mass")):
+        """version of the contents `what`: a new number whenever the content differs from the one seen at
+        the previous call (a content that comes back - NAC set and cleared again - is a new version, as
+        in the specification)"""
+        fp = state_fingerprint(ph, what)
+        last = self._last.get(what)
+        if last is None or last[0] != fp:
+            last = (fp, (last[1] + 1) if last else 1)
+            self._last[what] = last
+        return "%s#%d" % ("+".join(what), last[1])
 
     def project(self, ph):
         from phonopy.phonon.mesh import IterMesh
-        now = state_fingerprint(ph)
+        now = self.epoch(ph)
         m = ph._mesh
         if m is None:
             mesh = dict(st="none", full=False, kind="run", own=False)
@@ -368,7 +380,7 @@ class ResultBook:
         if g is None:
             rd = "none"
         else:
-            fp = state_fingerprint(ph, ("fc", "mass"))
+            fp = self.epoch(ph, ("fc", "mass"))
             if id(g) not in self.rd:
                 self.rd[id(g)] = fp
                 self.keep.append(g)
@@ -741,7 +753,7 @@ class Driver:
     def do_InitRD(self, op, ev):
         quiet(self.ph.init_random_displacements)
         g = self.ph._random_displacements
-        self.book.rd[id(g)] = state_fingerprint(self.ph, ("fc", "mass"))
+        self.book.rd[id(g)] = self.book.epoch(self.ph, ("fc", "mass"))
         self.book.keep.append(g)
 
     def do_SetGV(self, op, ev):
@@ -878,7 +890,7 @@ class Driver:
     def do_Query(self, op, ev):
         kind = op["k"]
         ph = self.ph
-        fp = state_fingerprint(ph)
+        fp = self.book.epoch(ph)
         mesh_fp = self.book.mesh.get(id(ph._mesh)) if ph._mesh is not None else None
         got = self.run_query(ph, kind)
         # bookkeeping of the holders this query wrote (provenance = the contents current now)
@@ -920,7 +932,7 @@ class Driver:
             if d > tol:
                 ok = False
         stale = (kind in CONSUMERS and mesh_fp != fp) or \
-            (kind == "rdq" and self.book.rd.get(id(getattr(ph, "_random_displacements", None))) != state_fingerprint(ph, ("fc", "mass")))
+            (kind == "rdq" and self.book.rd.get(id(getattr(ph, "_random_displacements", None))) != self.book.epoch(ph, ("fc", "mass")))
         if not stale:  # (an answer from a superseded holder is judged by TLC, not by the tolerance self-check)
             self.margins.append(worst)
         ev["qok"] = ok
